@@ -3,7 +3,7 @@
 //! reference binder, engine prepare for sqlite / generic).
 
 use crate::apgen::{GenCfg, Letters, SrcKind};
-use crate::binder::check_sql;
+use crate::binder::{check_sql_with, let_relations};
 use crate::iso::guard;
 use crate::model::pr_program;
 use crate::relcheck::{all_dialects, dname, err_text, opts};
@@ -56,6 +56,20 @@ pub const EXTRA: &[&str] = &[
     "from t | group {a} (aggregate {n = count this}) | join (from u | group {a} (aggregate {m = max d})) (==a)",
     "from t | derive x = a + 1 | group x (aggregate {n = count this}) | filter n > 1 | sort {-n}",
     "from t | select {a, b} | take 2 | append (from u | select {a, d} | take 2) | sort a",
+    // row ranges beyond 32 bits
+    "from t | take 4294967296",
+    "from t | sort a | take 5000000000..6000000000",
+    "from t | take 9223372036854775807",
+    "from t | group a (sort b | take 4294967296)",
+    "from t | select {x = a + 4294967296, y = 9223372036854775807}",
+    // a `let` relation read more than once, first as the bottom of a set operation
+    "let q = (from t | filter a > 1 | select {a, b})\nfrom u | select {a, d} | append q | append q",
+    "let q = (from t | filter a > 1 | select {a, b})\nfrom u | select {a, d} | append q | join q (==a) | select {u.a, q.b}",
+    "let q = (from t | filter a > 1 | select {a, b})\nlet w = (from u | select {a, d} | append q)\nfrom u | join q (==a) | join w (==a) | select {u.d, q.b, w.a}",
+    "let q = (from t | filter a > 1 | select {a, b})\nfrom u | select {a, d} | remove q | append q",
+    "let q = (from t | filter a > 1 | select {a, b})\nfrom u | select {a, d} | intersect q | join q (==a)",
+    "let q = (from t | select {a} | take 3)\nfrom q | select {a} | loop (join q (==a) | select {a = q.a + 1} | filter a < 5)",
+    "let q = (from t | select {a} | take 3)\nfrom u | select {a} | loop (filter a < 3 | select {a = a + 1}) | append q | join q (==a)",
 ];
 
 const STD_CALLS: &[&str] = &[
@@ -68,7 +82,7 @@ const STD_CALLS: &[&str] = &[
 fn sources(tier: Tier) -> Vec<(String, J)> {
     let cfg = GenCfg {
         depth: 2,
-        sources: tier.pick(vec![SrcKind::OpenT, SrcKind::LetClosed], vec![SrcKind::OpenT, SrcKind::LetClosed, SrcKind::Literal, SrcKind::SubClosed, SrcKind::LetSorted]),
+        sources: tier.pick(vec![SrcKind::OpenT, SrcKind::LetClosed, SrcKind::LetSide], vec![SrcKind::OpenT, SrcKind::LetClosed, SrcKind::LetSide, SrcKind::Literal, SrcKind::SubClosed, SrcKind::LetSorted]),
         max_joins: tier.pick(1, 2),
         letters: tier.pick(Letters::Naming, Letters::Core),
     };
@@ -101,6 +115,7 @@ pub fn check_source(db: &Db, src: &str) -> CaseOut {
         Ok(Ok(rq)) => rq,
         _ => return out,
     };
+    let lets = let_relations(src);
     // the header of a repository query may name its own dialect: the option wins
     for d in all_dialects() {
         let r = rq.clone();
@@ -115,7 +130,7 @@ pub fn check_source(db: &Db, src: &str) -> CaseOut {
         };
         out.accepted.push(dname(d));
         out.hash = out.hash.rotate_left(5) ^ fnv(&sql);
-        for (k, m) in check_sql(&sql, d) {
+        for (k, m) in check_sql_with(&sql, d, &lets) {
             // operators sqlparser's grammar for the dialect does not know (ClickHouse / MySQL `DIV`)
             if k == "does-not-parse" && m.contains("DIV") && matches!(d, Dialect::ClickHouse) {
                 continue;
@@ -131,8 +146,9 @@ pub fn check_source(db: &Db, src: &str) -> CaseOut {
         // layer 3: the engine's own verdict for the two executable targets, when only t / u are read
         if matches!(d, Dialect::SQLite | Dialect::Generic) {
             if let Err(e) = db.prepare(&sql) {
-                let missing_table = e.contains("no such table");
-                let engine_gap = d == Dialect::Generic && (e.contains("near \"ALL\"") || e.contains("near \"OFFSET\"") || e.contains("no such function") || e.contains("near \"FULL\"") || e.contains("RIGHT and FULL OUTER JOINs") || e.contains("near \"DISTINCT\"") || e.contains("near \"INTERVAL\"") || e.contains("near \"'"));
+                // a table the harness database lacks is not a verdict, unless the program itself defines it
+                let missing_table = e.contains("no such table") && !lets.iter().any(|n| e.contains(&format!("no such table: {n}"))) && !e.contains("no such table: table_");
+                let engine_gap = d == Dialect::Generic && (e.contains("near \"ALL\"") || e.contains("near \"OFFSET\"") || e.contains("no such function") || e.contains("near \"FULL\"") || e.contains("RIGHT and FULL OUTER JOINs") || e.contains("near \"DISTINCT\"") || e.contains("near \"INTERVAL\"") || e.contains("near \"'") || e.contains("circular reference") || (sql.contains(" OFFSET ") && !sql.contains("LIMIT")));
                 let typed_literal_gap = d == Dialect::Generic && (sql.contains("DATE '") || sql.contains("TIME '") || sql.contains("TIMESTAMP '") || sql.contains("INTERVAL "));
                 if !missing_table && !engine_gap && !typed_literal_gap {
                     out.bad.push(("engine-rejects".into(), dname(d), e, sql.clone()));
@@ -156,6 +172,9 @@ fn cause(key: &str, d: &str, msg: &str, sql: &str, src: &str) -> String {
         if msg.contains("no such column: _expr_") {
             return "orderby-helper-undefined-for-wildcard-column".into();
         }
+    }
+    if key == "engine-rejects" && d == "sqlite" && msg.contains("circular reference") && sql.contains("WITH RECURSIVE") {
+        return "loop-body-reads-recursive-table-inside-subquery:sqlite".into();
     }
     if key == "qualifier-not-in-scope" && sql.contains("ORDER BY") && src.contains("sort") && src.contains("join") {
         return "orderby-names-relation-out-of-scope-after-join".into();
